@@ -24,6 +24,7 @@ type scImpl struct {
 	q      *big.Int
 	fresh  func() kyber.Scalar
 	family string
+	nrecv  int
 }
 
 func (im *scImpl) le() bool { return im.fresh().ByteOrder() == kyber.LittleEndian }
@@ -41,6 +42,21 @@ func (im *scImpl) enc(v *big.Int) []byte {
 }
 
 func (im *scImpl) from(v *big.Int) kyber.Scalar { return im.fresh().SetBytes(im.enc(v)) }
+
+// recv returns the receiver of the next operation: alternately a new scalar and one that already holds a
+// value (q-1, a large one, a small one) - what a receiver held before must not show in the result.
+func (im *scImpl) recv() kyber.Scalar {
+	im.nrecv++
+	switch im.nrecv % 4 {
+	case 1:
+		return im.from(new(big.Int).Sub(im.q, big.NewInt(1)))
+	case 2:
+		return im.from(new(big.Int).Rsh(im.q, 1))
+	case 3:
+		return im.from(big.NewInt(3))
+	}
+	return im.fresh()
+}
 
 // via builds the scalar of value v along constructor path `mode` (operands must behave the same
 // whichever constructor produced them).
@@ -162,14 +178,14 @@ func c02Cases(c *kc.Ctx) []kc.Case {
 			if a.Sign() != 0 && b.Sign() != 0 {
 				nt = fmt.Sprintf("%s,%s,%d,%d", ah, bh, ma, mb)
 			}
-			add("add", "add "+ah+" "+bh, "add:"+nt, func() string { return im.val(im.fresh().Add(im.via(a, ma), im.via(b, mb))) }, modq(new(big.Int).Add(a, b)))
-			add("sub", "sub "+ah+" "+bh, "sub:"+nt, func() string { return im.val(im.fresh().Sub(im.via(a, ma), im.via(b, mb))) }, modq(new(big.Int).Sub(a, b)))
-			add("mul", "mul "+ah+" "+bh, "mul:"+nt, func() string { return im.val(im.fresh().Mul(im.via(a, ma), im.via(b, mb))) }, modq(new(big.Int).Mul(a, b)))
-			add("neg", "neg "+ah, "neg:"+ah, func() string { return im.val(im.fresh().Neg(im.via(a, ma))) }, modq(new(big.Int).Neg(a)))
+			add("add", "add "+ah+" "+bh, "add:"+nt, func() string { return im.val(im.recv().Add(im.via(a, ma), im.via(b, mb))) }, modq(new(big.Int).Add(a, b)))
+			add("sub", "sub "+ah+" "+bh, "sub:"+nt, func() string { return im.val(im.recv().Sub(im.via(a, ma), im.via(b, mb))) }, modq(new(big.Int).Sub(a, b)))
+			add("mul", "mul "+ah+" "+bh, "mul:"+nt, func() string { return im.val(im.recv().Mul(im.via(a, ma), im.via(b, mb))) }, modq(new(big.Int).Mul(a, b)))
+			add("neg", "neg "+ah, "neg:"+ah, func() string { return im.val(im.recv().Neg(im.via(a, ma))) }, modq(new(big.Int).Neg(a)))
 			if b.Sign() != 0 && i%4 == 0 {
 				inv := new(big.Int).ModInverse(b, q)
-				add("inv", "inv "+bh, "inv:"+bh, func() string { return im.val(im.fresh().Inv(im.via(b, mb))) }, inv)
-				add("div", "div "+ah+" "+bh, "div:"+nt, func() string { return im.val(im.fresh().Div(im.via(a, ma), im.via(b, mb))) }, modq(new(big.Int).Mul(a, inv)))
+				add("inv", "inv "+bh, "inv:"+bh, func() string { return im.val(im.recv().Inv(im.via(b, mb))) }, inv)
+				add("div", "div "+ah+" "+bh, "div:"+nt, func() string { return im.val(im.recv().Div(im.via(a, ma), im.via(b, mb))) }, modq(new(big.Int).Mul(a, inv)))
 			}
 			// Equal coincides with equality of residues, also for values reached along different paths
 			if i%3 == 0 {
@@ -194,7 +210,7 @@ func c02Cases(c *kc.Ctx) []kc.Case {
 		}
 		for _, v := range ints {
 			v := v
-			add("setint64", fmt.Sprintf("setint64 %d", v), fmt.Sprintf("int:%d", v), func() string { return im.val(im.fresh().SetInt64(v)) }, modq(big.NewInt(v)))
+			add("setint64", fmt.Sprintf("setint64 %d", v), fmt.Sprintf("int:%d", v), func() string { return im.val(im.recv().SetInt64(v)) }, modq(big.NewInt(v)))
 		}
 		// SetBytes: every length 0..96, several patterns
 		op := "setbytesbe"
@@ -228,18 +244,18 @@ func c02Cases(c *kc.Ctx) []kc.Case {
 				} else {
 					o = kc.BeN(p)
 				}
-				add("setbytes", op+" "+kc.HexB(p), fmt.Sprintf("sb:%d:%x", l, p), func() string { return im.val(im.fresh().SetBytes(p)) }, modq(o))
+				add("setbytes", op+" "+kc.HexB(p), fmt.Sprintf("sb:%d:%x", l, p), func() string { return im.val(im.recv().SetBytes(p)) }, modq(o))
 			}
 		}
 		// Pick: value in [0,q) determined solely by the bytes drawn
 		for i := 0; i < c.N(20, 600); i++ {
 			rs := &recStream{r: rng.Fork(fmt.Sprint("pick", i))}
 			var s kyber.Scalar
-			got := kc.Recover(func() string { s = im.fresh().Pick(rs); return im.val(s) })
+			got := kc.Recover(func() string { s = im.recv().Pick(rs); return im.val(s) })
 			if im.family == "circl" || im.family == "gnark" {
 				// delegated samplers: only the property's wording is checked (range, determinism)
 				rs2 := &recStream{r: rng.Fork(fmt.Sprint("pick", i))}
-				got2 := kc.Recover(func() string { return im.val(im.fresh().Pick(rs2)) })
+				got2 := kc.Recover(func() string { return im.val(im.recv().Pick(rs2)) })
 				if got != got2 || len(got) > 4 && got[:4] == "err:" || got == "panic" {
 					c.Violation(im.name+":pick", "Pick not deterministic / out of range: "+got+" vs "+got2, map[string]string{"impl": im.name, "stream": kc.HexB(rs.used)})
 				}
